@@ -12,10 +12,10 @@ from .c02 import validate_segments
 
 
 def models(ck, tier):
-    r = common.tlc("MC_ZckTool", "MC_ZckTool.cfg", workers=8, timeout=900)
+    r = common.tlc("MC_ZckTool", "MC_ZckTool.cfg" if tier != "thorough" else common.cfg_variant("MC_ZckTool.cfg", common.workdir("c01m"), MaxLen=7), workers=8, timeout=1800, heap="8g")
     ck.require_ok("ZckTool", r); ck.add_tlc("ZckTool/MC_ZckTool.cfg", r, "alphabet {a,b,x}, split strings a, ab, aba, aab, inputs <= 6, blocks 1..3")
     for cfg in ("MC_WriterAuto.cfg", "MC_WriterManual.cfg", "MC_WriterAutoTight.cfg", "MC_WriterAutoBigMin.cfg"):
-        r = common.tlc("MC_WriterImpl", cfg, workers=8, timeout=900)
+        r = common.tlc("MC_WriterImpl", cfg if tier != "thorough" else common.cfg_variant(cfg, common.workdir("c01m"), MaxLen=8), workers=8, timeout=1800, heap="8g")
         ck.require_ok("WriterImpl/" + cfg, r); ck.add_tlc("WriterImpl/" + cfg, r)
     # the assumption of the chunker model: no byte value whose constant window matches the mask
     import re
